@@ -1,4 +1,4 @@
-CONSTANTS MaxTxn = 3 MaxRec = 3 MaxFaults = 2 Reload = TRUE Bump = TRUE OnePerRequest = TRUE Driver = TRUE
+CONSTANTS MaxTxn = 3 MaxRec = 3 MaxFaults = 2 AbortAttempted = TRUE Reload = TRUE Bump = TRUE OnePerRequest = TRUE Driver = TRUE
 SPECIFICATION Spec
 INVARIANTS Emit
 CHECK_DEADLOCK FALSE
